@@ -213,9 +213,11 @@ CLAIMED = {
             'endpoint orderings; rectangle functions outside the audited endpoint-level set stay compositions '
             '(C-R13, catches the two seeded cosh rewrites); every kernel argument has the shape (raw mpf / interval / '
             'rectangle) its kernel takes (C-R15, sa/shape.py: found mpci_gamma handing the rectangle to mpi_gamma and '
-            'conjugate using mpf_neg on an interval, both repaired).  NOT decided: corner selection inside the '
+            'conjugate using mpf_neg on an interval, both repaired); every rectangle function that reaches a real interval '
+            'function with unwidened transcendental endpoints (rule C-R14 of C14) inherits that finding (C-R14t: ten '
+            'known findings, each with a failing input).  NOT decided: corner selection inside the '
             'audited endpoint-level functions, the excluded region of gamma, value-level tightenings.',
-            'Trusts C14\'s real interval functions and the monotonicity table.',
+            'Trusts the monotonicity table; the real interval functions are trusted only where C14 has no finding.',
             'DESIGN.md section 2, Engine C'),
     'C16': ('F-order-abs',
             'static analysis: abstract interpretation of the predicates\' AST over the finite domain '
